@@ -4,7 +4,9 @@ Decided statically: the compiled (inverted-index) evaluation and the reference p
 per range-bound variant the comparison operator on the numeric and on the lexicographic branch versus the BTreeMap range
 bounds of the two index lookups (16 cells), per filter variant the combinator; every write of document metadata or
 liveness is paired with index maintenance; the selected ids are intersected with the live set and mapped through the
-live id table; uncompilable shapes fall back to the reference predicate.  OrderedF64's bit trick (value level) and
+live id table; uncompilable shapes fall back to the reference predicate; both sides parse the stored value / the bound
+untouched; OrderedF64 keys order like the f64 values on a finite table of IEEE edge values (MIR of from_f64 evaluated, ±0 share a
+key); the pre-image handed to remove_doc / replace_doc is the slot's stored metadata.  OrderedF64's order outside that table and
 behaviour over histories are not decided.
 """
 import re
@@ -18,7 +20,9 @@ MANIFEST = {
             'index range bounds} = 16 cells plus the 7-row combinator table (Exact, In, And, Or, Not, Range, None incl. the empty '
             'forms), the shared number parser, and the numeric/lexical split; plus index-maintenance pairing with every metadata / '
             'liveness write and alive-intersection + id mapping of the result. Cell-by-cell agreement is a necessary condition of '
-            'the property; value-level facts (OrderedF64 ordering) are not decided.',
+            'the property. Added after the gap audit: the parsed strings are untransformed on both sides, OrderedF64::from_f64 is evaluated on a '
+            'table of IEEE edge values (order embedding, −0.0/+0.0 share a key; outside the table not decided), and every pre-image given to '
+            'remove_doc / replace_doc originates from DocumentStore.metadata[slot].',
     'design_ref': 'DESIGN.md §4.11',
     'note': 'Trusted base: rustc MIR; operators are read from the value assigned to the return place in each variant arm, range '
             'bounds from the tuple passed to BTreeMap::range.',
